@@ -1,0 +1,17 @@
+// SPDX-FileCopyrightText: 2021 dtn7-go contributors
+//
+// SPDX-License-Identifier: GPL-3.0-or-later
+
+//go:build verif
+
+package routing
+
+// verifSched, if set by a test, is called at named schedule points to force a goroutine interleaving.
+var verifSched func(name string)
+
+// verifPoint marks a schedule point. It is a no-op unless built with the verif tag, see verifhook_off.go.
+func verifPoint(name string) {
+	if f := verifSched; f != nil {
+		f(name)
+	}
+}
